@@ -8,13 +8,13 @@ PROP = {'level': 'proof',
           'konst_rconsumer_eq_std), plus the two documented exceptions as theorems; konst_eq_std_normalised '
           'characterises every remaining chain exactly. The full statement is false of model and code alike '
           'for take/skip/zip before a reversal (kernel-checked witnesses) = known finding F7. The model is '
-          'tied to the real macros by generated programs: all type-correct chains up to depth 2 (3 thorough) '
+          'tied to the real macros by generated programs: all type-correct chains up to depth 2 '
           'plus a seeded sample of deeper ones, each with for_each!, eval! consumers and collect_const!, '
           'over all inputs over {0..3} up to length 4.',
  'sources': [('programs', 'c10')],
  'exhaustive': False,
- 'rule': 'Programs: every type-correct chain of depth <= 2 (quick) / 3 (thorough) over 40 adapter instances '
-         '+ seeded sample of depth 3-5; consumers: for_each on every chain, all 14 eval! consumers on chains '
+ 'rule': 'Programs: every type-correct chain of depth <= 2 over 40 adapter instances '
+         '+ seeded sample of depth 3-5 (400 quick / 2500 thorough); consumers: for_each on every chain, all 14 eval! consumers on chains '
          'of depth <= 1 and 3 sampled ones on deeper chains, collect_const! on 4 constant inputs; inputs: '
          'all arrays over {0,1,2,3} up to length 4 for depth <= 1, 41 inputs for deeper chains.',
  'explanation': 'impl = value computed by the real konst macros; oracle = identical std chain compiled in '
